@@ -15,6 +15,8 @@ import ggen
 import grender
 import inputs as inputs_mod
 from gast import check_types
+from model import Model, Drop
+import rdebug
 from evidence import Outcome
 
 
@@ -40,9 +42,23 @@ def make_units(seed, n, wd):
         units.append({"gidx": i, "gpath": gp, "code_path": os.path.join(wd, "g%d.rs" % i),
                       "exports": [(r.name, types[r.name].position) for r in g.exported()], "ctx": False})
         irnd = random.Random("c20i/%s/%d" % (seed, i))
+        # cases whose reference evaluation is expensive (legal exponential backtracking) are not part of this workload:
+        # every parse is recorded event by event and repeated dozens of times
+        try:
+            ref = Model(g, types, step_cap=6000)
+        except Exception:
+            ref = None
         for r in g.exported():
             for s in inputs_mod.inputs_for(g, r.name, irnd, n_sent=6, n_total=(30 if prof in ("unicode", "charclass") else 16), unicode_heavy=(prof in ("unicode", "mix", "charclass"))):
-                cases.append(("c%d" % k, i, r.name, 2, 50000000, s))
+                budget = 50000000
+                if ref is not None:
+                    try:
+                        budget = 200 * ref.parse(r.name, s)["steps"] + 100000
+                    except (Drop, rdebug.Unsupported, RecursionError):
+                        continue
+                    except Exception:
+                        budget = 3000000
+                cases.append(("c%d" % k, i, r.name, 2, budget, s))
                 k += 1
     # one "heavy" grammar: parses that hold hundreds of thousands of cache entries for a while, running next to all the
     # small ones (anything budgeted or counted per process rather than per parse shows up in the small ones' results)
@@ -89,6 +105,9 @@ def check_C20(tier, seed):
     wd = tempfile.mkdtemp(prefix="vf20_", dir=build.WORK)
     try:
         n = 40 if tier == "quick" else 100
+        import pipeline
+        build.debug_table()
+        pipeline.build_debug_table_once()
         units, cases, texts = make_units(seed, n, wd)
         jobs = [("g%d" % u["gidx"], u["gpath"], u["code_path"], "-", "-") for u in units]
         r = build.run_cgdrv("gen", jobs, wd)
